@@ -419,9 +419,25 @@ class Replayer:
                 self.M(same(res, own, what="transform vs scores"), "C04", "C04_TrainingTransformIsScores",
                        f"transform(training data {d}) differs from scores()")
 
+    METRICS = ["explained_variance", "explained_variance_ratio", "singular_values", "squared_covariance_fraction", "cross_correlation_coefficients",
+               "correlation_coefficients_X", "fraction_variance_X_explained_by_X", "fraction_variance_Y_explained_by_X", "homogeneous_patterns",
+               "heterogeneous_patterns", "components_amplitude", "components_phase", "scores_amplitude", "scores_phase", "eigenvalues", "damping_times",
+               "periods", "decorrelation_time", "filter_patterns", "get_params"]
+
+    def touch_metrics(self, obj):
+        """every metric accessor is a query: call those the class has (their purity is judged by the checks that follow)"""
+        for name in self.METRICS:
+            fn = getattr(obj, name, None)
+            if callable(fn):
+                try:
+                    fn()
+                except Exception:  # noqa  (not every metric exists for every configuration, e.g. Hilbert transform-only ones)
+                    pass
+
     def check_query(self, a, m):
         w, fam = self.w, self.fam
         used = a["used"]
+        self.touch_metrics(self.model)
         sc = self.call("C14", "Query", "scores()", lambda: fam.scores(self.model))
         co = self.call("C14", "Query", "components()", lambda: fam.components(self.model))
         lab = self.sample_labels(w.ds_mem[a["labelsFrom"]])
